@@ -235,7 +235,7 @@ func init() {
 		o := prog.DefaultOpts()
 		o.PredPct, o.FallbackPct = 35, 30
 		o.ParMatrix = true
-		g := genPart(c, "C04", c.pick(60, 1500), c.pick(60, 1500), o, 1, "panic,fault,one,nest", c.pick(8, 14), false,
+		g := genPart(c, "C04", c.pick(60, 1500), c.pick(60, 1500), o, 1, "panic,fault,one,nest,failprompt", c.pick(8, 14), false,
 			"some user function actually panicked (string, error, struct, int, nil-map write, index out of range, non-comparable values, a *cff.PanicError) - task, predicate, parallel task, slice/map element function or End hook")
 		m := modPart(c, "C04m", c.pick(30, 400), "panic,fault", c.pick(6, 12), "some task actually panicked")
 		both(c, nil, g, m)
@@ -260,7 +260,7 @@ func init() {
 		o := prog.DefaultOpts()
 		o.ForceCOE = 2
 		o.ParMatrix = true
-		g := genPart(c, "C07", c.pick(100, 1500), c.pick(40, 1200), o, 1, "fault,panic,one", c.pick(8, 14), false,
+		g := genPart(c, "C07", c.pick(100, 1500), c.pick(40, 1200), o, 1, "fault,panic,one,failprompt", c.pick(8, 14), false,
 			"fail-fast directive in which some user function actually failed (error or panic): returned error identity, untouched Results sentinels, nothing downstream invoked")
 		m := modPart(c, "C07m", c.pick(30, 400), "fault,one", c.pick(6, 12), "some task actually failed")
 		both(c, s, g, m)
